@@ -44,6 +44,7 @@ From CG Require Import Model.Ambiguity.
 From CG Require Import Model.Driver.
 From CG Require Model.DotOfRegex.
 From CG Require Import Model.EmitData.
+From CG Require Import Model.Diag.
 (* add new Require lines above this line *)
 Require Import ExtrOcamlBasic ExtrOcamlString.
 Extraction Language OCaml.
@@ -160,5 +161,6 @@ Separate Extraction
   Ambiguity.check_ambiguity_best_effort
   Driver.compile
   EmitData.data_of_dfa
+  Diag.render
   (* add new roots above this line *)
   Prelude.pow2.
